@@ -62,7 +62,7 @@ func (a c03Atom) src(c c03Cfg) string {
 
 func c03Alphabet(c c03Cfg) []c03Atom {
 	var as []c03Atom
-	texts := []string{"a", " ", "\n", "\r\n", "\t", " \t\r\n", "{", "}", "*", "-", "é", "à", "\u00a0", "\u0085x\u0085", "\v", "<", c.L[:1], c.LC[:1], c.R[:1]}
+	texts := []string{"a", " ", "\n", "\r\n", "\t", " \t\r\n", "{", "}", "*", "-", "é", "à", "\u00a0", "\u0085x\u0085", "\v", "\x00z", "<", c.L[:1], c.LC[:1], c.R[:1]}
 	seen := map[string]bool{}
 	for _, t := range texts {
 		if !seen[t] {
